@@ -132,6 +132,43 @@ pub fn tile_list_max(max: usize) -> BoxedStrategy<Vec<usize>> {
         .boxed()
 }
 
+/// Arbitrary (mostly invalid) tile lists: 1-4 sizes in decreasing order from a
+/// pool in which many pairs do not divide each other
+pub fn tile_list_any() -> BoxedStrategy<Vec<usize>> {
+    vec(
+        prop_oneof![Just(2usize), Just(3), Just(4), Just(6), Just(8), Just(12), Just(16), Just(24), Just(32), Just(48)],
+        1..=4,
+    )
+    .prop_map(|mut v| {
+        v.sort_unstable_by(|a, b| b.cmp(a));
+        v
+    })
+    .boxed()
+}
+
+/// The documented invariant of a tile-size list: not empty, strictly
+/// decreasing, every size a multiple of the next
+pub fn tile_list_valid(t: &[usize]) -> bool {
+    !t.is_empty() && t.windows(2).all(|w| w[0] > w[1] && w[1] > 0 && w[0] % w[1] == 0)
+}
+
+/// `TileSizes::new` must accept exactly the valid lists.  Ok(None): the list
+/// is invalid and was rejected (nothing to render).
+pub fn tile_sizes_checked(t: &[usize], cx: &mut Cx) -> Result<Option<TileSizes>, Fail> {
+    match (TileSizes::new(t), tile_list_valid(t)) {
+        (Ok(ts), true) => Ok(Some(ts)),
+        (Err(e), true) => Err(Fail::new("tile-list-rejected", format!("valid tile list {t:?} rejected: {e}"))),
+        (Err(_), false) => {
+            cx.ev.count("invalid_tile_lists_rejected");
+            Ok(None)
+        }
+        (Ok(_), false) => Err(Fail::new(
+            "invalid-tile-list-accepted",
+            format!("TileSizes::new accepted {t:?}, in which a size is not a multiple of the next (the recursion would not cover its tiles)"),
+        )),
+    }
+}
+
 #[derive(Clone, Debug, Serialize, Deserialize)]
 pub struct Case {
     pub shape: ShapeSpec,
@@ -239,9 +276,10 @@ fn run<F: MathFunction + RenderHints>(case: &Case, cx: &mut Cx) -> CheckResult {
     let pool = make_pool(case.threads);
     let tiles = match &case.tiles {
         None => None,
-        Some(t) => Some(TileSizes::new(t).map_err(|e| {
-            Fail::new("tile-list-rejected", format!("valid tile list {t:?} rejected: {e}"))
-        })?),
+        Some(t) => match tile_sizes_checked(t, cx)? {
+            Some(ts) => Some(ts),
+            None => return Ok(()),
+        },
     };
     let root_tile = {
         let list: Vec<usize> = match &case.tiles {
@@ -488,7 +526,7 @@ impl Prop for P {
             mat3_strategy(),
             prop_oneof![2 => Just(Fl(0.0)), 2 => gens::fl_uniform(-1.0, 1.0)],
             prop::bool::weighted(0.3),
-            prop_oneof![1 => Just(None), 3 => tile_list().prop_map(Some)],
+            prop_oneof![3 => Just(None), 9 => tile_list().prop_map(Some), 1 => tile_list_any().prop_map(Some)],
             any::<bool>(),
             prop_oneof![4 => Just(0u8), 2 => Just(1u8), 1 => 2u8..=5],
         )
